@@ -187,6 +187,9 @@ def _corrupt(module, evs, i):
         if ok and isinstance(ev.get("back"), list) and _bump_first_int(ev["back"]):
             return "re-read instant +1", ev
     elif module in ("TraceSrt", "TraceVtt", "TraceSsa", "TraceTtml", "TraceStl", "TraceTeletext"):
+        if module == "TraceTeletext" and ok and i % 2 == 1 and ev.get("hooks"):
+            ev["hooks"][-1][2] = 1 - ev["hooks"][-1][2]
+            return "receiving flag observed at the last packet flipped", ev
         if ok and _bump_first_int(ev.get("post")):
             return "first integer of the projected result +1", ev
     elif module == "TraceTotality":
@@ -1071,7 +1074,12 @@ def check_teletext(pid, tier, seed, scratch, replay):
               "units per PES; M: the target page in every magazine 1..8 (magazine 8 travels as 0), selected by option or auto-detected. Each description is encoded by the harness (own Hamming 8/4 / parity / data-unit encoder), multiplexed by "
               "the astits muxer and read by ReadFromTeletext with the PID auto-detected and given; TLC validates the returned cues "
               "against the normative decoder Expected (spec/Teletext.tla), which is itself checked against the truth each family "
-              "carries by construction (TeletextMC). Non-trivial = distinct (stream, options)."),
+              "carries by construction (TeletextMC). Implementation layer: the `verif` hook at the top of parsePacket records the page "
+              "buffer's control state (magazine, packet number, receiving, selected magazine / page) at every packet that reaches the "
+              "dispatcher; Teletext.CtlStep transcribes parsePacketHeader, TeletextMC checks it against the normative decoder in "
+              "lockstep (CtlRefines: same selected page, the code receives whenever the norm does, agreement at every row of the "
+              "selected magazine) and the trace specification requires the recorded sequence to equal the model's (DRIFT otherwise). "
+              "Non-trivial = distinct (stream, options)."),
         assumptions=["the astits muxer/demuxer are trusted for the transport layer; every PES carries a PTS; a row is transmitted once per instance",
                      "arrow / dash / double-bar positions of the English and Italian sub-sets accept the common look-alike substitutes (TeletextTables.tla)",
                      "a row containing a parity error is compared on its text only (the statement does not say how it splits runs)"],
